@@ -65,6 +65,86 @@ def compare_parts(test):
     return None
 
 
+def pos_if(iff):
+    """(test, body taken when test is true, body taken when it is false) with a leading `not` folded away:
+    `if not A: X else: Y` is reported as (A, Y, X)."""
+    t, tb, fb = iff.test, iff.body, iff.orelse
+    while isinstance(t, ast.UnaryOp) and isinstance(t.op, ast.Not):
+        t, tb, fb = t.operand, fb, tb
+    return t, tb, fb
+
+
+class Undecidable(Exception):
+    pass
+
+
+class Decision(object):
+    """Evaluate a small decision fragment (if/elif/else chains that assign or return constants) under given
+    facts - independent of how the chain is written (negations, branch order, elif vs nested if).
+    facts:  text -> truth value of a boolean atom;   values: text -> concrete value of an expression."""
+
+    def __init__(self, facts=None, values=None):
+        self.facts = dict(facts or {})
+        self.values = dict(values or {})
+        self.env = {}
+        self.result = None      # ('return', v) | ('raise', text) | None
+
+    def test(self, t):
+        if isinstance(t, ast.UnaryOp) and isinstance(t.op, ast.Not):
+            return not self.test(t.operand)
+        if isinstance(t, ast.BoolOp):
+            if isinstance(t.op, ast.And):
+                return all(self.test(v) for v in t.values)
+            return any(self.test(v) for v in t.values)
+        txt = norm(t)
+        if txt in self.facts:
+            return self.facts[txt]
+        if isinstance(t, ast.Compare) and len(t.ops) == 1:
+            l, op, r = t.left, t.ops[0], t.comparators[0]
+            lt = norm(l)
+            if lt in self.values:
+                lv = self.values[lt]
+                if isinstance(r, ast.Constant):
+                    rv = r.value
+                    if isinstance(op, ast.Eq):
+                        return lv == rv
+                    if isinstance(op, ast.NotEq):
+                        return lv != rv
+                    if isinstance(op, ast.Is):
+                        return lv is rv
+                    if isinstance(op, ast.IsNot):
+                        return lv is not rv
+                if isinstance(r, (ast.Tuple, ast.List, ast.Set)) and all(isinstance(e, ast.Constant) for e in r.elts):
+                    vals = [e.value for e in r.elts]
+                    if isinstance(op, ast.In):
+                        return lv in vals
+                    if isinstance(op, ast.NotIn):
+                        return lv not in vals
+        if isinstance(t, ast.Constant):
+            return bool(t.value)
+        raise Undecidable(txt)
+
+    def run(self, stmts):
+        for st in stmts:
+            if self.result is not None:
+                return
+            if isinstance(st, ast.If):
+                self.run(st.body if self.test(st.test) else st.orelse)
+            elif isinstance(st, ast.Assign) and len(st.targets) == 1 and isinstance(st.value, ast.Constant):
+                self.env[norm(st.targets[0])] = st.value.value
+            elif isinstance(st, ast.Return):
+                if st.value is None or isinstance(st.value, ast.Constant):
+                    self.result = ("return", None if st.value is None else st.value.value)
+                else:
+                    self.result = ("return-expr", norm(st.value))
+            elif isinstance(st, ast.Raise):
+                self.result = ("raise", norm(st.exc)[:40] if st.exc is not None else "")
+            elif isinstance(st, (ast.Pass,)) or (isinstance(st, ast.Expr) and isinstance(st.value, ast.Constant)):
+                continue
+            else:
+                raise Undecidable(norm_stmt(st)[:60])
+
+
 def unused_params(fi, ignore=("self", "cls")):
     """Parameters never read in the function body (including nested defs)."""
     used = set()
